@@ -19,7 +19,7 @@ STUBS = ["scipy.spatial.ConvexHull on the concrete witness mesh supplies the can
 OUTSIDE = ["icosphere orders 3-4 and fine resolution hints (thousands of tetrahedra)", "RigidBody.make_* wrappers (they only forward)", "rounding"]
 BOUNDS = {"quick": "sphere r in [0.01,100] orders 0-1; ellipsoid radii (3 reals) order 0; cube size; box sizes (3 reals, incl. the 'two/three sides equal' class boundaries); cylinder (r, l: long/medium/short classes) and capsule (r, h) with 3-7 vertices per circle",
           "thorough": "order 2, more ring counts"}
-WALL_BUDGET = {"quick": 360, "thorough": 900}
+WALL_BUDGET = {"quick": 300, "thorough": 600}
 EXPECTED_EXCEPTIONS = ()
 
 
